@@ -398,6 +398,9 @@ structure Env where
 /-- the module with every body elided -/
 def Env.elide (E : Env) : Env := { E with ufuncs := E.ufuncs.map fun fi => { fi with body := fi.body.elide } }
 
+/-- function index ↦ uid -/
+def Env.resolve (E : Env) : Nat → Option Nat := fun f => E.ftab[f]?
+
 /-- signatures by uid -/
 def Env.usigs (E : Env) : List Sig := E.ufuncs.map (·.sig)
 
